@@ -285,6 +285,151 @@ def _valid_days_terms(chk, base, cv, rep):
     return out
 
 
+def _day_counts_by_interpretation(chk, rule):
+    """day_counts(index): the length of each timestamp's period is the time up to the *next* timestamp, in days, stored on the period's start;
+    the last (open) period has none.  The function is interpreted on an index of four symbolic instants t0 < t1 < t2 < t3."""
+    import sympy as sp
+    from engine.pyinterp import Stub as _Stub
+    fi = chk.repo.func("opendsm.eemeter.common.data_processor_utilities", "day_counts")
+    T = sp.symbols("t0 t1 t2 t3", real=True)
+    NAT = sp.Symbol("NaT")
+
+    class _TD(_Stub):               # a TimedeltaIndex: seconds as sympy terms (NaT for a missing one)
+        def __init__(self, secs):
+            self.secs = list(secs)
+
+        def append(self, o):
+            return _TD(self.secs + list(o.secs))
+
+        def total_seconds(self):
+            return _Vals(self.secs)
+
+        @property
+        def days(self):
+            return _Vals([x if x is NAT else sp.floor(x / 86400) for x in self.secs])
+
+        def __iter__(self):
+            return iter(self.secs)
+
+        def _abs_len(self):
+            return len(self.secs)
+
+    class _Vals(_Stub):
+        def __init__(self, xs):
+            self.xs = list(xs)
+
+        def __truediv__(self, k):
+            return _Vals([x if x is NAT else x / k for x in self.xs])
+
+        def __mul__(self, k):
+            return _Vals([x if x is NAT else x * k for x in self.xs])
+
+        __rmul__ = __mul__
+
+        def __iter__(self):
+            return iter(self.xs)
+
+    class _Ix(_Stub):
+        def __init__(self, ts):
+            self.ts = list(ts)
+
+        def copy(self, *a, **k):
+            return _Ix(self.ts)
+
+        def _abs_len(self):
+            return len(self.ts)
+
+        def __getitem__(self, k):
+            if isinstance(k, slice):
+                return _Ix(self.ts[k])
+            raise Unsupported("index[...] with a key that is not a slice")
+
+        def __sub__(self, o):
+            if isinstance(o, _Ix) and len(o.ts) == len(self.ts):
+                return _TD([a - b for a, b in zip(self.ts, o.ts)])
+            raise Unsupported("difference of indexes of different length")
+
+        def to_series(self, *a, **k):
+            return _Ser(self.ts, self)
+
+        @property
+        def empty(self):
+            return not self.ts
+
+    class _Ser(_Stub):             # index.to_series(): diff / shift spellings
+        def __init__(self, xs, ix):
+            self.xs, self.ix = list(xs), ix
+
+        def diff(self, periods=1):
+            if periods == 1:
+                return _Ser([NAT] + [b - a for a, b in zip(self.xs, self.xs[1:])], self.ix)
+            if periods == -1:
+                return _Ser([a - b for a, b in zip(self.xs, self.xs[1:])] + [NAT], self.ix)
+            raise Unsupported("diff with another period")
+
+        def shift(self, n=1, **k):
+            if n == -1:
+                return _Ser(self.xs[1:] + [NAT], self.ix)
+            if n == 1:
+                return _Ser([NAT] + self.xs[:-1], self.ix)
+            raise Unsupported("shift by another amount")
+
+        def __neg__(self):
+            return _Ser([x if x is NAT else -x for x in self.xs], self.ix)
+
+        def __sub__(self, o):
+            if isinstance(o, _Ser):
+                return _Ser([NAT if (a is NAT or b is NAT) else a - b for a, b in zip(self.xs, o.xs)], self.ix)
+            raise Unsupported("series arithmetic")
+
+        @property
+        def dt(self):
+            return self
+
+        def total_seconds(self):
+            return _Ser(self.xs, self.ix)
+
+        def __truediv__(self, k):
+            return _Ser([x if x is NAT else x / k for x in self.xs], self.ix)
+
+    class _PDd(_Stub):
+        NaT = NAT
+
+        @staticmethod
+        def TimedeltaIndex(xs, **k):
+            return _TD(list(xs))
+
+        @staticmethod
+        def Series(data=None, index=None, **k):
+            vals = list(data.xs) if isinstance(data, (_Vals, _Ser)) else list(data)
+            return _Ser(vals, index)
+
+        @staticmethod
+        def Timedelta(*a, **k):
+            if k == {"days": 1} or a == ("1D",) or a == ("1d",):
+                return 86400
+            raise Unsupported("Timedelta other than one day")
+
+    class _NPd(_Stub):
+        nan = NAT
+    it = Interp(step_limit=20_000)
+    idx = _Ix(T)
+    try:
+        res = Function(fi.node, ModuleEnv(chk.repo, fi.module, it, {"pd": _PDd(), "pandas": _PDd(), "np": _NPd(), "numpy": _NPd()}), it)(idx)
+    except InterpRaised as e:
+        rule.require(False, f"{fi.key}|period-to-next-timestamp", fi.where(), f"day_counts raises {e.exc_name} on a plain index of four timestamps")
+        return
+    except Unsupported as e:
+        raise AnalysisError(f"{fi.key}: uses an operation outside the modelled subset: {e}")
+    if not isinstance(res, _Ser) or not isinstance(res.ix, _Ix):
+        raise AnalysisError(f"{fi.key}: does not return a Series over the index")
+    want = [(T[1] - T[0]) / 86400, (T[2] - T[1]) / 86400, (T[3] - T[2]) / 86400, NAT]
+    ok = res.ix.ts == list(T) and len(res.xs) == 4 and all((g is NAT and w is NAT) or (g is not NAT and w is not NAT and sp.simplify(g - w) == 0) for g, w in zip(res.xs, want))
+    rule.require(ok, f"{fi.key}|period-to-next-timestamp", fi.where(),
+                 f"day_counts must give, on each timestamp, the days up to the next timestamp (none for the last); on (t0, t1, t2, t3) it gives {[str(x) for x in res.xs]} over {[str(t) for t in res.ix.ts]}",
+                 sample={"index": [str(t) for t in T], "values": [str(x) for x in res.xs]})
+
+
 def run(chk):
     chk.explanation = (
         "Every EEMeterWarning construction site reachable from the daily/billing/hourly data classes is mapped to the list it reaches "
@@ -293,9 +438,10 @@ def run(chk):
         "condition is normalised to (quantity, operator, threshold) and compared with the published predicate; plumbing order and "
         "constructor arguments of the criteria objects are checked, with a sibling cross-check of the three families.")
     chk.not_decided += ["'every well-formed input is accepted' (library compatibility; fails in this sandbox for pandas-version reasons)",
-                        "exactness of the runtime counts fed to the predicates (day_counts, n_days_total: index arithmetic)"]
+                        "exactness of the runtime counts fed to the predicates beyond their definition (day_counts is decided on a symbolic index; n_days_total: index arithmetic)"]
     r1 = chk.rule("R10.1", "per family and mode the unconditional criteria call list produces exactly the published set of disqualifying criteria; data classes invoke their own family's criteria in the right mode", 12)
     r2 = chk.rule("R10.2", "predicate table: each criterion's guard is the published (quantity, operator, threshold)", 12)
+    _day_counts_by_interpretation(chk, r2)
     r3 = chk.rule("R10.3", "sink classification: the published criteria reach `disqualification`; extreme values / UTC index / off-cycle reads / unverifiable or sparse high-frequency data / inferior model reach `warnings`", 20)
     r4 = chk.rule("R10.4", "plumbing: (disqualification, warnings) tuple order, += into the same-named lists, criteria objects built with only {data, is_electricity_data, is_reporting_data}; reporting classes set is_reporting_data=True", 12)
 
